@@ -321,7 +321,21 @@ impl LayerEnv {
 
         let env_launch_path = layer_dir.as_ref().join("env.launch");
         if env_launch_path.is_dir() {
-            result_layer_env.launch = LayerEnvDelta::read_from_env_dir(env_launch_path)?;
+            result_layer_env.launch = LayerEnvDelta::read_from_env_dir(&env_launch_path)?;
+
+            // Process-specific entries live in sub-directories named after the process type.
+            for dir_entry in fs::read_dir(&env_launch_path)? {
+                let path = dir_entry?.path();
+
+                if path.is_dir() {
+                    if let Some(process_name) = path.file_name().and_then(|name| name.to_str()) {
+                        result_layer_env.process.insert(
+                            process_name.to_string(),
+                            LayerEnvDelta::read_from_env_dir(&path)?,
+                        );
+                    }
+                }
+            }
         }
 
         Ok(result_layer_env)
@@ -501,6 +515,12 @@ impl LayerEnvDelta {
             // determined that it also treats the file contents as raw bytes.
             // See: https://github.com/buildpacks/lifecycle/blob/a7428a55c2a14d8a37e84285b95dc63192e3264e/env/env.go#L73-L106
             let path = dir_entry?.path();
+
+            // Directories aren't environment variables. `env.launch` contains one directory per
+            // process type with process-specific entries (see `LayerEnv::read_from_layer_dir`).
+            if path.is_dir() {
+                continue;
+            }
 
             #[cfg(target_family = "unix")]
             let file_contents = {
